@@ -6,22 +6,23 @@ package processors
 // Vocabulary over one injection point n and one candidate m:
 //   HasQualArg(n)   the point carries a qualifier argument
 //   QualMatch(n, m) m declares a qualifier (WireQualifier) and it is one of the requested ones
-//   InQ(n, m)       m is an admissible candidate: non-nil and, if the point is qualified, matching
+//   InQ(n, m)       m is an admissible candidate: non-nil, not the holder of n itself and, if the point is qualified, matching
 //   Primary(m)      m's type implements WirePrimary;  Named(m): m has a custom name (alias)
 //   Single(n)       the point is single-valued (not a slice or array field)
 
 //@ spec func HasQualArg(n *component_definition.Property) bool = ArgIn(n.args, component_definition.ArgQualifier)
 //@ spec func QualMatch(n *component_definition.Property, m *component_definition.Meta) bool = implements(m.Raw, definition.WireQualifier) && ArgHas1(n.args, component_definition.ArgQualifier, asType(m.Raw, definition.WireQualifier).Qualifier())
-//@ spec func InQ(n *component_definition.Property, m *component_definition.Meta) bool = m != nil && implies(HasQualArg(n), QualMatch(n, m))
+//@ spec func InQ(n *component_definition.Property, m *component_definition.Meta) bool = m != nil && !IsSelfOf(n, m) && implies(HasQualArg(n), QualMatch(n, m))
 //@ spec func Primary(m *component_definition.Meta) bool = TypeImplements(m.Type, primaryInterface)
 //@ spec func Named(m *component_definition.Meta) bool = m.alias != ""
 //@ spec func Single(n *component_definition.Property) bool = n.Type.Kind() != 23 && n.Type.Kind() != 17
 
 //@ func filterDependencies$1
-//@ property C08
+//@ property C08 C10 C02
 //@ pure
+//@ requires [candidate-built] PointOK(n) && implies(m != nil, m.Base != nil)
 //@ assigns nothing
-//@ ensures [non-nil] result == (m != nil)
+//@ ensures [non-nil-not-self] result == (m != nil && !IsSelfOf(n, m))
 
 //@ func filterDependencies$2
 //@ property C08
@@ -47,7 +48,7 @@ package processors
 //@ func filterDependencies
 //@ property C08 C10
 //@ ghost-tags metas
-//@ requires [point-wellformed] n != nil && n.Field != nil && n.Field.Base != nil && n.Type != nil
+//@ requires [point-wellformed] PointOK(n)
 //@ requires [candidates-wellformed] forall(k, int, implies(0 <= k && k < len(metas) && metas[k] != nil, metas[k].Base != nil && metas[k].Type != nil), metas[k])
 //@ assigns FilterPos, FilterSrc
 //@ ensures [nil-free] implies(result1 == nil, NilFree(result0))
@@ -61,6 +62,7 @@ package processors
 //@ ensures [unique-primary-wins] implies(result1 == nil && Single(n), UniquePrimaryWins(n, metas, result0))
 //@ ensures [unique-unnamed-wins] implies(result1 == nil && Single(n), UniqueUnnamedWins(n, metas, result0))
 //@ ensures [tie-stays-in-best-class] implies(result1 == nil && Single(n), BestClass(n, metas, result0))
+//@ ensures [self-never-beats-other] {C10 C02} implies(result1 == nil, forall(i, int, implies(0 <= i && i < len(result0), !IsSelfOf(n, result0[i])), result0[i]))
 //@ ensures [input-untouched] forall(i, int, implies(0 <= i && i < len(metas), metas[i] == oldat(metas, i))) && (backing(result0) == 0 || fresh(result0))
 //@ loop 1 invariant [scan-bounds] 0 <= _done && _done <= len(result) && len(result) > 1
 //@ loop 1 invariant [no-primary-so-far] forall(i, int, implies(0 <= i && i < _done, !Primary(result[i])), result[i])
@@ -72,7 +74,7 @@ package processors
 
 //@ func (*dependencyFurtherMatchingPostProcessors).PostProcessProperties
 //@ property C08 C09 C07
-//@ requires [properties-wellformed] forall(k, int, implies(0 <= k && k < len(properties), properties[k] != nil && properties[k].Field != nil && properties[k].Field.Base != nil && properties[k].Type != nil), properties[k])
+//@ requires [properties-wellformed] forall(k, int, implies(0 <= k && k < len(properties), PointOK(properties[k])), properties[k])
 //@ requires [properties-distinct] forall(j, int, forall(k, int, implies(0 <= j && j < k && k < len(properties), properties[j] != properties[k])))
 //@ requires [candidates-wellformed] forall(k, int, forall(i, int, implies(0 <= k && k < len(properties) && 0 <= i && i < len(properties[k].Injects) && properties[k].Injects[i] != nil, properties[k].Injects[i].Base != nil && properties[k].Injects[i].Type != nil)))
 //@ assigns any(properties[0].Injects), FilterPos, FilterSrc
